@@ -227,7 +227,7 @@ def _run_net(ctx: Ctx):
                 if good == "1" and out[q] == "none":
                     ctx.oblige(f"fuel bound theorem instance on {name}", "correspondence", False,
                                f"{lines_all[q]} needs more than fuelBound although the configuration passes goodCfgB")
-        for key in ("via_host", "gw_is_host", "gw_off_subnet", "dmz_cross", "recursive_nh", "two_gateway"):
+        for key in ("via_host", "gw_is_host", "gw_off_subnet", "dmz_cross", "recursive_nh", "two_gateway", "dual_homed_other_nic_down", "dead_port_subnet"):
             if notes.get(key):
                 ctx.count("net-misconfig:" + key)
         if notes.get("dual_homed") is not None:
